@@ -423,20 +423,21 @@ def _hist_spec(rng, names):
     return s
 
 
-def check_history(ctx, V, C, spec, ops, record=True):
+def check_history(ctx, V, C, spec, ops, record=True, start='ctor'):
     """The property along a history on ONE live object: after every save, cleared mipmaps are the floor average of their
     parent and the file read back holds what the object holds. Returns (ok, saves, model json)."""
-    inp = {'kind': 'history', 'spec': {k: v for k, v in spec.items() if k != '_names'}, 'ops': ops}
+    inp = {'kind': 'history', 'spec': {k: v for k, v in spec.items() if k != '_names'}, 'ops': ops, 'start': start}
     try:
-        saves, problems, mj = U.run_history_impl(V, spec, ops)
+        saves, problems, mj, other_px = U.run_history_impl(V, spec, ops, start)
     except Exception as e:  # noqa
         if record:
             W(ctx, 'history', f'history raised {type(e).__name__}: {e}', inp)
-        return False, [], None
+        return False, [], None, {}
     if problems and record:
         f565 = spec['fmt'] in ('RGB565', 'BGR565') or any(o[0] == 'fmt' and o[1] in ('RGB565', 'BGR565') for o in ops)
-        W(ctx, 'history', f'{spec["w"]}x{spec["h"]} {spec["fmt"]}, history {_fmt_ops(ops)}: {problems[0][1]}', inp)
-    return not problems, saves, mj
+        W(ctx, 'history', f'{spec["w"]}x{spec["h"]} {spec["fmt"]}, object {"read lazily from a file" if start == "read" else "built"}, '
+          f'history {_fmt_ops(ops)}: {problems[0][1]}', inp)
+    return not problems, saves, mj, other_px
 
 
 def _fmt_ops(ops):
@@ -444,6 +445,8 @@ def _fmt_ops(ops):
     for o in ops:
         if o[0] == 'set': out.append(f'copy_from{tuple(o[1:4])}')
         elif o[0] == 'fclear': out.append(f'Frame{tuple(o[1:4])}.clear()')
+        elif o[0] == 'copy': out.append(f'Frame{tuple(o[1:4])}.copy_from({o[4]}{tuple(o[5:8]) if o[4] in ("same", "other_lazy", "other_loaded") else ""})')
+        elif o[0] == 'rescale': out.append(f'Frame{tuple(o[1:4])}.rescale_from(Frame{tuple(o[4:7])}, {o[7]})')
         elif o[0] == 'pixel': out.append(f'Frame{tuple(o[1:4])}[{o[4]},{o[5]}]=..')
         elif o[0] == 'fill': out.append(f'Frame{tuple(o[1:4])}.fill')
         elif o[0] == 'save': out.append('save()' if o[1] is None else f'save(7.{o[1]})')
@@ -842,13 +845,16 @@ def correspond(ctx, drivers):
     _CACHE['histories'] = []
     for i in range(ctx.budget(150, 1200)):
         spec = _hist_spec(hrng, names)
-        ops = U.gen_history(hrng, spec, V)
-        okh, saves, mj = check_history(ctx, V, C, spec, ops)
+        start = 'read' if i % 2 else 'ctor'
+        spec['real_file'] = hrng.random() < 0.2
+        ops = U.gen_history(hrng, spec, V, start)
+        okh, saves, mj, other_px = check_history(ctx, V, C, spec, ops, start=start)
         _CACHE['histories'].append((spec, ops))
         if mj is None:
             continue
         dims = {tuple(f['key']): (f['w'], f['h']) for f in mj['frames']}
-        reqs.append({'op': 'history', 'vtf': mj, 'ops': U.history_model_ops(V, spec, ops, dims)})
+        reqs.append({'op': 'history', 'vtf': mj, 'ops': U.history_model_ops(V, spec, ops, dims, other_px)})
+        ctx.count('history:start-' + start)
         meta.append((spec, ops, saves))
         ctx.case({'op': 'history', 'spec': {k: v for k, v in spec.items() if k != '_names'}, 'ops': ops}, nontrivial=True, sample_every=83)
         ctx.count(f'history:len{len(ops)}'); ctx.count(f'history:saves{sum(1 for o in ops if o[0] == "save")}')
@@ -945,7 +951,9 @@ def search(ctx):
         hrng = random.Random(f'C15-hist:{ctx.seed}')
         for i in range(ctx.budget(150, 1200)):
             spec = _hist_spec(hrng, names)
-            check_history(ctx, V, C, spec, U.gen_history(hrng, spec, V))
+            start = 'read' if i % 2 else 'ctor'
+            spec['real_file'] = hrng.random() < 0.2
+            check_history(ctx, V, C, spec, U.gen_history(hrng, spec, V, start), start=start)
     # the canonical stale-mipmap history on every writable format: save, repaint level 0, clear level 1 by Frame.clear(), save
     for nm in names:
         spec = _hist_spec(random.Random(f'canon:{nm}'), names)
@@ -954,6 +962,11 @@ def search(ctx):
                                         ['save', None, 1, True]])
         check_history(ctx, V, C, spec, [['compute', 4], ['fill', 0, 0, 0, [200, 100, 50, 250]], ['fclear', 0, 0, 1],
                                         ['compute', 4], ['save', None, 1, True]])
+        # a file is read and a frame copied onto itself (also through its own buffer) before anything loaded it
+        spec2 = dict(spec, fill='all')
+        for form in ('self', 'ownview_flat', 'same'):
+            check_history(ctx, V, C, spec2, [['copy', 0, 0, 0, form, 0, 0, 0, 1], ['copy', 0, 0, 1, form, 0, 0, 1, 2],
+                                             ['save', None, 1, True, False]], start='read')
         ctx.count('search:history-canonical')
     # systematic small matrix, independent of the random specs: all sizes x versions, plain and cubemap
     rng = random.Random(f'C15-search:{ctx.seed}')
@@ -991,9 +1004,9 @@ def search(ctx):
         ops = wt['input']['ops']
         def hfails(sub):
             if not sub or sub[-1][0] != 'save':
-                sub = list(sub) + [['save', None, spec['sheetver'], spec['asw']]]
+                sub = list(sub) + [['save', None, spec['sheetver'], spec['asw'], False]]
             try:
-                okh, _, _ = check_history(ctx, V, C, spec, sub, record=False)
+                okh, _, _, _ = check_history(ctx, V, C, spec, sub, record=False, start=wt['input'].get('start', 'ctor'))
             except Exception:  # noqa
                 return False
             return not okh
@@ -1001,7 +1014,7 @@ def search(ctx):
             from common import ddmin
             small = ddmin(ops, hfails, budget=120)
             if small and small[-1][0] != 'save':
-                small = small + [['save', None, spec['sheetver'], spec['asw']]]
+                small = small + [['save', None, spec['sheetver'], spec['asw'], False]]
             wt['input']['ops'] = small
             wt['what'] += f' [shrunk to: {_fmt_ops(small)}]'
         break
@@ -1049,7 +1062,7 @@ def replay(ctx, payload, quiet=False):
         check_full_chain(ctx, V, C, inp['w'], inp['h'], inp['seed'], inp['via'])
     elif kind == 'history':
         sp = dict(inp['spec']); sp['_names'] = _names(V, C)
-        check_history(ctx, V, C, sp, inp['ops'])
+        check_history(ctx, V, C, sp, inp['ops'], start=inp.get('start', 'ctor'))
     else:
         print('replay file names a broken obligation/correspondence, no input to replay:', payload.get('broken_obligations'),
               payload.get('disagreements', [])[:1])
